@@ -430,6 +430,41 @@ def run(ctx):
                "reader arms for both string length types")
     ctx.guard("W3", w34)
 
+    def w3_option():
+        # Option<String>: Some(s) is written as the string s whatever s is (also the empty string), None as the NONE marker - the
+        # reader maps the marker, and nothing else, back to None
+        wo = F.fn("DefaultProtocolWriter::write_option_string")
+        vb = wo.params[1]["b"]
+        strs = wo.calls("write_str")
+        ctx.exact("W3", "write_str calls in write_option_string", len(strs), 1)
+        for c in strs:
+            conds = []
+            for g in hirq.guards(wo, c):
+                how = g["how"]
+                if how == "arm":
+                    head = (g["pat"].get("r") or {}).get("p", "")
+                    subject = local_of(hirq.resolve(wo, g["cond"])) == vb or vb in [local_of(x) for x in hirq.walk(g["cond"]) if x.get("k") == "path"]
+                    conds.append("some" if head.endswith("::Some") and g.get("guard") is None and subject else "other:arm %s%s" % (
+                        head.split("::")[-1], " if <guard>" if g.get("guard") is not None else ""))
+                    continue
+                for a, pol in hirq.atoms(g["cond"], g["pol"]):
+                    if a.get("k") == "mcall" and a["m"] == "is_some" and pol and local_of(a["r"]) == vb:
+                        conds.append("some")
+                    elif a.get("k") == "mcall" and a["m"] == "is_none" and not pol and local_of(a["r"]) == vb:
+                        conds.append("some")
+                    elif a.get("k") == "letx" and pol and (a["pat"].get("r") or {}).get("p", "").endswith("::Some"):
+                        conds.append("some")
+                    elif hirq.field_of(a, NO_T) and hirq.field_of(a, NO_T)[1] == "ok":
+                        conds.append("ok")
+                    else:
+                        conds.append("other:" + describe(a))
+            ok = "some" in conds and not [x for x in conds if x.startswith("other")]
+            ctx.ob("W3", "write_option_string|Some(s) is written as s, unconditionally", ok, line_of(c), "write_str under %s" % conds)
+        none = [c for c in wo.walk() if c.get("k") == "mcall" and c["m"] == "write_u8" and c["a"] and
+                (hirq.def_path(c["a"][0]) or "").endswith("FSM_PROTOCOL_TYPE_OPT_STRING_NONE")]
+        ctx.exact("W3", "NONE marker writes in write_option_string", len(none), 1)
+    ctx.guard("W3", w3_option)
+
     # ---------------------------------------------------------------- W5
     ctx.rule("W5", "integer widths: for every integer operation the reader's narrowest type is at least as wide as the type of the value the writer wrote")
 
